@@ -127,7 +127,10 @@ class World:
 def outcome_of(builder, cfg):
     try:
         res = builder.build(cfg)
-        return [[f.filename, hashlib.md5(f.contents.encode('utf-8')).hexdigest()] for f in res.files], res
+        # the reported content hash is part of the output: it must be the md5 of THESE contents
+        return [[f.filename, hashlib.md5(f.contents.encode('utf-8')).hexdigest() +
+                 ('' if f.hash == hashlib.md5(f.contents.encode('utf-8')).hexdigest() else f'/reported-hash={f.hash}')]
+                for f in res.files], res
     except Exception as exc:  # pylint: disable=broad-except
         return ['EXC', type(exc).__name__], None
 
